@@ -25,8 +25,11 @@ Coverage audit additions:
 * QViews in TrackedArray.tla: tracked aliases made through a plain intermediary
   (caching.tracked_array(a), np.asarray(a).view(TrackedArray)) whose creation does not mark the source;
   the as-built model attributes the resulting stale reads to ViewHeldAcrossHash;
-* container-level histories (read / edit / edit again / restore / twin built separately) on 11 kinds of
-  container judged by TLC against spec/C02ContainerHash.tla (checks/c02_containers.py);
+* container-level histories (read / edit / edit again / restore / twin built separately / cached values read /
+  library copy() taken and edited) on 11 kinds of container judged by TLC against spec/C02ContainerHash.tla
+  (checks/c02_containers.py); the edits are in-place numpy routes on the member, the public setters (also
+  None / empty and back), and the library's own mutators (apply_transform incl. mirrors, apply_scale, invert,
+  rezero, merge_vertices, update_faces / update_vertices, process, ...) used as write routes;
 * more construction routes for 'equal arrays hash equal'.
 Every catalogue entry, array kind and container must really have been exercised (MachineryError otherwise).
 """
@@ -967,7 +970,8 @@ def more_equal_array_routes(trimesh, V):
 def _tlc_job(args):
     name, module, cfg_text, kw = args
     d = tlc.prepare("c02/" + name)
-    return name, tlc.run(d, module, cfg_text, **kw)
+    # these state spaces are small: a modest heap per JVM keeps six concurrent runs light on a shared machine
+    return name, tlc.run(d, module, cfg_text, java_opts=["-Xmx2g"], **kw)
 
 
 def main(argv):
@@ -1009,7 +1013,7 @@ def main(argv):
     with ThreadPoolExecutor(max_workers=len(jobs)) as ex:
         futs = {j[0]: ex.submit(_tlc_job, j) for j in jobs}
         # meanwhile: the container-level histories on the real objects (about a second)
-        ccases, cper = cc.cases(trimesh, tier, seed())
+        ccases, cper, cfam = cc.cases(trimesh, tier, seed())
         res = {k: f.result()[1] for k, f in futs.items()}
     cov["tlc_wall_s"] = round(time.time() - t_tlc, 1)
     note("intended design (2 tracked views, base view, quiet alias): HashFresh", tlc.must(res["intended"], "intended"))
@@ -1091,8 +1095,9 @@ def main(argv):
     cov["stale_reads_attributed"] = listed
 
     # container-level histories judged by TLC
-    if len(ccases) < 1000 or min(cper.values()) < 50:
-        raise MachineryError("container histories: enumeration came out nearly empty: %r" % (cper,))
+    if len(ccases) < 2000 or min(cper.values()) < 50 or cfam["library_mutator"] < 500 or \
+            cfam["setter_none_or_empty"] < 150 or cfam["with_copy"] < 300:
+        raise MachineryError("container histories: enumeration came out nearly empty: %r %r" % (cper, cfam))
     rejects, cstates, cwall = tlc.validate_batches("c02/containers", "C02ContainerHash", ccases, cc.CFG, shards=2)
     states += cstates
     trans += cstates
@@ -1113,7 +1118,7 @@ def main(argv):
         "model_drift_fresh_where_stale_predicted": drift,
         "equal_array_meshes_compared": n_eq,
         "equal_array_objects_compared_further_routes": n_eq2,
-        "container_histories": {"validated_by_tlc": len(ccases), "per_kind": cper, "rejected": len(rejects),
+        "container_histories": {"validated_by_tlc": len(ccases), "per_kind": cper, "per_family": cfam, "rejected": len(rejects),
                                 "tlc_wall_s": round(cwall, 1), "templates": cc.TEMPLATES,
                                 "edits": [e[0] for e in cc.EDITS]},
         "exercised": {k: c for k, c in sorted(stats.items()) if not k.startswith("known:")},
